@@ -150,17 +150,18 @@ type onceState struct {
 }
 
 type Sim struct {
-	cfg     Config
-	tasks   [MaxTasks]*Task
-	ntasks  int32
-	weights []int32
-	rng     *Rng
-	kick    chan struct{}
-	seq     int64 // global event sequence number for history stamps
-	selN    int64 // select statements executed so far (selectseam.go)
-	randN   int64 // random values drawn so far (randseam.go)
-	poolN   int64 // sync.Pool calls so far (poolseam.go)
-	pools   map[*sync.Pool]*poolState
+	cfg      Config
+	tasks    [MaxTasks]*Task
+	ntasks   int32
+	weights  []int32
+	rng      *Rng
+	kick     chan struct{}
+	seq      int64         // global event sequence number for history stamps
+	selN     int64         // select statements executed so far (selectseam.go)
+	cleanups []*cleanupReg // registered through the collector seam (gcseam.go)
+	randN    int64         // random values drawn so far (randseam.go)
+	poolN    int64         // sync.Pool calls so far (poolseam.go)
+	pools    map[*sync.Pool]*poolState
 
 	res     *Result
 	current *Task
